@@ -10,6 +10,31 @@ NOTE = ("Trusted: rustc nightly's type-checked MIR (mir-opt-level=0, overflow ch
         "wrapper summaries; imprecise origins make a rule silent, never alarming.")
 
 CHECKS = {
+    "C03": dict(
+        text="Structural: the protocol that justifies `unsafe impl Sync for Circ` has the required shape - raw memory and window "
+             "constructors reachable only through the window API (call graph + signature rule), window bounds are one snapshot "
+             "taken under the state guard, ring state only inside a Mutex and read-modify-written under one lock acquisition, "
+             "each side writes only its own position, compile-fail witnesses for one handle per side / by-value commit / unique "
+             "borrow, unsafe-impl inventory, acyclic lock order, handle-count ceiling. Disjointness of the snapshot ranges and "
+             "linearizability as such are not decided.",
+        design="§4 C03", technique="call-graph who-may-call + lock-guard liveness dataflow + compile_fail witnesses"),
+    "C08": dict(
+        text="Partial: for derive-generated sync blocks chunk-independence holds by construction, checked on the generated MIR "
+             "of every in-crate user and a generated family (lock-step iteration from 0, take(n), one process call per sample, "
+             "no state written by work()). For hand-written blocks only the bounded-copy rule. Carried-state arithmetic of "
+             "hand-written blocks is not decided.",
+        design="§4 C08", technique="structural rules on macro-generated MIR over a generated program family"),
+    "C12": dict(
+        text="Partial: the stream stores only tags of committed samples and consume(0) removes none (central contract), and on "
+             "the generated sync path input tags are selected by == loop index, re-emitted at that index and handed to every "
+             "produce(), for every arity of the generated family. Index mapping of hand-written blocks is not decided.",
+        design="§4 C12", technique="guard dominance + structural rules on macro-generated MIR"),
+    "C19": dict(
+        text="Programs quantified over: a generated family (sync, sync_tag x 1..3 inputs x 1..3 outputs x plain/default+into) and "
+             "every derive user in the crate; each generated new()/work()/eof() is checked on its MIR (wiring and return order, "
+             "windows on all streams, waits name the empty stream, n = min over all inputs then all outputs, same n to every "
+             "consume/produce, eof = conjunction), plus compile witnesses for constructor output order.",
+        design="§4 C19", technique="structural rules on macro-generated MIR over a generated program family + compile_fail witnesses"),
     "C09": dict(
         text="Decides three of the four clauses statically: no stream window type occurs in any field, static, escaping "
              "closure or leak call (=> nothing is held after work()); no CFG path reaches `return Ok(Again)` without any "
